@@ -218,7 +218,7 @@ def render_expr(e, lang, sp):
             return '%s(*)' % name
         if len(e) > 4:
             # ARRAY_AGG's documented second argument: a callback applied to the aggregated list
-            cb = {'sorted_top2': ('lambda v: sorted(v)[:2]', 'v => v.sort().slice(0, 2)'), 'count': ('lambda v: len(v)', 'v => v.length'), 'joined': ("lambda v: '|'.join(v)", "v => v.join('|')")}[e[4]]
+            cb = {'sorted_top2': ('lambda v: sorted(v)[:2]', 'v => v.sort().slice(0, 2)'), 'count': ('lambda v: len(v)', 'v => v.length'), 'joined': ("lambda v: '|'.join(v)", "v => v.join('|')"), 'others': ('lambda v: [x for x in v if x != v[0]]', 'v => v.filter(x => x != v[0])'), 'count_minus_one': ('lambda v: len(v) - 1', 'v => v.length - 1')}[e[4]]
             return '%s(%s, %s)' % (name, R(arg), cb[0] if lang == 'py' else cb[1])
         return '%s(%s)' % (name, R(arg))
     if k == 'star':
@@ -277,9 +277,10 @@ def render(q, lang='py', sp=None, join_table_id='b'):
         jt = JOIN_ALT[j['type']] if sp.join_alt else j['type']
         eq = '=' if sp.eq_single else '=='
         pairs = []
-        for lhs, rhs in j['keys']:
+        for ki, (lhs, rhs) in enumerate(j['keys']):
             l, r = render_expr(lhs, lang, sp), render_expr(rhs, lang, sp)
-            if sp.swap_on and lhs[0] == 'f':
+            # swap_on: True = every pair written b-side first; 'odd' / 'even' = only those pairs (a mix of both orders inside one ON list)
+            if (sp.swap_on is True or (sp.swap_on == 'odd' and ki % 2 == 1) or (sp.swap_on == 'even' and ki % 2 == 0)) and lhs[0] == 'f':
                 l, r = r, l
             pairs.append('%s %s %s' % (l, eq, r))
         clauses.append(('join', sp.kw(jt).replace(' ', S) + S + join_table_id + S + sp.kw('ON') + S + (S + ('and' if sp.kwcase != 'upper' else 'AND') + S).join(pairs)))
@@ -770,7 +771,7 @@ def _evaluate(q, A, B, a_names, b_names):
                     v_ = agg_final(s[1], g[col])
                     if len(s) > 4:
                         _need(all(isinstance(x, str) for x in v_))      # text values only: sorting / joining mean the same in both languages
-                        v_ = {'sorted_top2': lambda v: sorted(v)[:2], 'count': len, 'joined': lambda v: '|'.join(v)}[s[4]](v_)
+                        v_ = {'sorted_top2': lambda v: sorted(v)[:2], 'count': len, 'joined': lambda v: '|'.join(v), 'others': lambda v: [x for x in v if x != v[0]], 'count_minus_one': lambda v: len(v) - 1}[s[4]](v_)
                     row.append(v_)
                 else:
                     row.append(g[col][0])
